@@ -112,6 +112,57 @@ def step (d : D) : List String → D × String
       let ok := ladder.find? (fun k => !(runOp k { d.net with oof := false } (.ping n ip cnt)).1.oof)
       (d, match ok with | some k => s!"{k}" | none => "none")
     | _, _, _ => (d, "bad-op")
+  | ["app", n, ip, svc, reply] =>
+    match n.toNat?, parseIp ip, svc.toNat?, parseBool reply with
+    | some n, some ip, some svc, some reply =>
+      let (st, ok) := runOp fuelMax d.net (.app n ip svc reply)
+      let (st, evs) := flush st
+      ({ d with net := st }, s!"{showBool ok} {evs}")
+    | _, _, _, _ => (d, "bad-op")
+  | ["appif", n, ip, svc, reply] =>
+    -- a request the client software only makes on an established connection (an answer from the service was received before)
+    match n.toNat?, parseIp ip, svc.toNat?, parseBool reply with
+    | some n, some ip, some svc, some reply =>
+      if ((d.net.node? n).map (fun nd => nd.got.contains svc)).getD false then
+        let (st, ok) := runOp fuelMax d.net (.app n ip svc reply)
+        let (st, evs) := flush st
+        ({ d with net := st }, s!"{showBool ok} {evs}")
+      else (d, "0 ")
+    | _, _, _, _ => (d, "bad-op")
+  | ["ftp", n, ip, srv] =>
+    -- FTPClient.send_file as a composition of `runOp` steps: PORT (retried once when the server did not acknowledge it), STOR,
+    -- QUIT (the only command answered with a frame); the client reads the acknowledgements off the shared payload object =
+    -- the server node's `acks`.  Result: the QUIT was processed.
+    match n.toNat?, parseIp ip, srv.toNat? with
+    | some n, some ip, some srv =>
+      let acked (st : St) : Nat := ((st.node? srv).map (fun nd => nd.acks.length)).getD 0
+      let step (st : St) (reply : Bool) : St × Bool :=
+        let a0 := acked st
+        let st' := (runOp fuelMax st (.app n ip 21 reply)).1
+        (st', decide (a0 < acked st'))
+      let (s1, c1) := step d.net false
+      let (s2, c2) := if c1 then (s1, true) else step s1 false
+      if !c2 then
+        let (st, evs) := flush s2
+        ({ d with net := st }, s!"0 {evs}")
+      else
+        let (s3, c3) := step s2 false
+        if !c3 then
+          let (st, evs) := flush s3
+          ({ d with net := st }, s!"0 {evs}")
+        else
+          let (s4, c4) := step s3 true
+          let (st, evs) := flush s4
+          ({ d with net := st }, s!"{showBool c4} {evs}")
+    | _, _, _ => (d, "bad-op")
+  | ["setport", n, svc] =>
+    match n.toNat?, svc.toNat? with
+    | some n, some svc => ({ d with net := d.net.modNode n (fun nd => { nd with ports := nd.ports ++ [svc] }) }, "ok")
+    | _, _ => (d, "bad-op")
+  | ["setserve", n, svc] =>
+    match n.toNat?, svc.toNat? with
+    | some n, some svc => ({ d with net := d.net.modNode n (fun nd => { nd with serves := nd.serves ++ [svc] }) }, "ok")
+    | _, _ => (d, "bad-op")
   | ["setflag", n] =>
     match n.toNat? with
     | some n => ({ d with net := d.net.modNode n (fun nd => { nd with flag := true }) }, "ok")
